@@ -173,13 +173,17 @@ def rand_cfg(rng):
         return [f()] if rng.random() < p else []
 
     txt = lambda n: L(bytes(rng.choice(b"abcXYZ019 /._-%\\\"'{};#") for _ in range(rng.randrange(1, n))))  # noqa: E731
-    raw = lambda n: L(bytes(rng.randrange(256) for _ in range(rng.randrange(0, n))))  # noqa: E731
+    # byte arguments: random bytes, or one of the quote / backslash neighbourhoods that decide how python's repr() quotes the
+    # value (a backslash before a single quote with and without a double quote elsewhere, trailing backslashes, ...)
+    TRICKY = [b"C:\\'q'", b"\\'", b"'\\", b"\\\"'", b"a\\'b\"c", b"\\\\'", b"'", b'"', b"\\", b"\\\\", b"'\"'", b"\n'\\", b"it's", b"\\x41'", b"'\\'", b"\"\\'"]
+    raw = lambda n: L(rng.choice(TRICKY)) if rng.random() < 0.4 else L(bytes(rng.randrange(256) for _ in range(rng.randrange(0, n))))  # noqa: E731
 
     def prog(zero_kind_count):
         p = []
         for _ in range(rng.randrange(0, 3)):
             kind = rng.choice(["_HEADER", "_PARAMETER"])
-            p.append({"op": kind, "arg": L(b"K%d: v" % len(p)) if kind == "_HEADER" else L(b"k%d=v" % len(p))})
+            val = rng.choice([b"v", b"v\\'w", b"'\\", b"a\"b"])
+            p.append({"op": kind, "arg": L(b"K%d: " % len(p) + val) if kind == "_HEADER" else L(b"k%d=" % len(p) + val)})
         terms = rng.sample(["PRINT", "HEADER", "PARAMETER", "URI_APPEND"], zero_kind_count)
         for bi, term in enumerate(terms):
             p.append({"op": "BUILD", "arg": bi})
